@@ -14,4 +14,11 @@ def kept (k : Nat) (l : List Int) : List Int := l.filter fun x => decide (cnt l 
 /-- the filter of tau-thresholding: `count + noise > τ` -/
 def released (count noise tau : Int) : Bool := decide (count + noise > tau)
 
+/-- grouping keys with public values: the released rows are the listed values left-joined with the per-key aggregates of the data
+(`join_with_grouping_values`); a key absent from the data gets no aggregate -/
+def releasePublic {κ ν : Type} (vals : List κ) (agg : κ → Option ν) : List (κ × Option ν) := vals.map fun k => (k, agg k)
+
+/-- what a plain GROUP BY over the protected rows would release instead: one row per key present in the data -/
+def releaseFromData {κ ν : Type} [DecidableEq κ] (rows : List (κ × ν)) : List κ := (rows.map (·.1)).eraseDups
+
 end Qrlew.Tau
